@@ -2,7 +2,7 @@
     unit, list, prod, sumbool and sumor map to the OCaml types; N, positive, Z and nat stay the
     extracted inductive types. No [Extract Constant], no further [Extract Inductive]. *)
 From Coq Require Import Extraction ExtrOcamlBasic.
-From AnemoVerif Require Import Base Utf8 Bincode Status Wire SizeLimit Timeout AuthLayer Inflight Gcra Router Codegen ActivePeers MutualDial.
+From AnemoVerif Require Import Base Utf8 Bincode Status Wire SizeLimit Timeout AuthLayer Inflight Gcra Router Codegen ActivePeers MutualDial Dialer.
 
 Extraction Language OCaml.
 
@@ -27,4 +27,5 @@ Separate Extraction
   Codegen.server_unary Codegen.client_unary
   ActivePeers.step ActivePeers.run ActivePeers.peers ActivePeers.tie_break ActivePeers.empty
   MutualDial.reach MutualDial.do_step MutualDial.enabled MutualDial.terminal MutualDial.init
-  MutualDial.all_labels MutualDial.survivor MutualDial.converged.
+  MutualDial.all_labels MutualDial.survivor MutualDial.converged
+  Dialer.check Dialer.b_update Dialer.backoff_duration Dialer.first_tick_after.
